@@ -1001,9 +1001,17 @@ func (t *txattrwalk) handle(cs *connState) message {
 			return linux.EINVAL
 		}
 		size = len(buf)
+
+		// The new fid needs a File of its own: a fidRef closes its File
+		// when its last reference is dropped, so sharing ref.file would
+		// close it under the original fid and then a second time.
+		_, xf, err := ref.file.Walk(nil)
+		if err != nil {
+			return err
+		}
 		newRef := &fidRef{
 			server: cs.server,
-			file:   ref.file,
+			file:   xf,
 			pendingXattr: pendingXattr{
 				op:   xattrWalk,
 				name: t.Name,
